@@ -102,13 +102,25 @@ def _tree(draw):
         parent = draw(st.sampled_from(dirs))
         name = "ln%d" % i
         p = (parent + "/" + name) if parent else name
-        style = draw(st.sampled_from(["rel", "abs", "chain", "dangling", "cyclic", "climb", "rel", "climbhit", "throughfile"]))
+        style = draw(st.sampled_from(["rel", "abs", "chain", "dangling", "cyclic", "climb", "rel", "climbhit", "throughfile",
+                                      "throughlink", "throughlink"]))
         if style in ("rel", "abs") and targets:
             t = draw(st.sampled_from(targets))
             links[p] = (os.path.relpath(t, parent or ".") if style == "rel" else "/" + t, style)
         elif style == "chain" and links:
             t = draw(st.sampled_from(sorted(links)))
             links[p] = (os.path.relpath(t, parent or "."), style)
+        elif style == "throughlink":
+            # the target path runs THROUGH another symlink member (a link to a directory), whatever the member order
+            dl = [(lp, lt) for lp, (lt, ls) in links.items() if ls in ("rel", "abs")
+                  and os.path.normpath(os.path.join(os.path.dirname(lp), lt) if not lt.startswith("/") else lt[1:]) in dirs]
+            if dl:
+                lp, lt = draw(st.sampled_from(dl))
+                d_ = os.path.normpath(os.path.join(os.path.dirname(lp), lt) if not lt.startswith("/") else lt[1:])
+                inside = [f for f in fl if os.path.dirname(f) == d_]
+                if inside:
+                    f = draw(st.sampled_from(inside))
+                    links[p] = (os.path.relpath(lp, parent or ".") + "/" + os.path.basename(f), "throughlink")
         elif style == "throughfile" and fl:
             # dangling: the path continues below a regular file
             t = draw(st.sampled_from(fl))
